@@ -60,9 +60,7 @@ func (h *NFSProcedureHandler) handleLookup(body io.Reader, reply *RPCReply, auth
 		return nfsErrorWithPostOp(reply, NFSERR_STALE), nil
 	}
 
-	node.mu.RLock()
-	isDir := node.attrs.Mode&os.ModeDir != 0
-	node.mu.RUnlock()
+	isDir := h.currentMode(node)&os.ModeDir != 0
 
 	if !isDir {
 		return encodeStatusWithPostOp(reply, NFSERR_NOTDIR, h.currentDirAttrs(node)), nil
@@ -123,9 +121,7 @@ func (h *NFSProcedureHandler) handleReadlink(body io.Reader, reply *RPCReply, au
 		return nfsErrorWithPostOp(reply, NFSERR_STALE), nil
 	}
 
-	node.mu.RLock()
-	isSymlink := node.attrs.Mode&os.ModeSymlink != 0
-	node.mu.RUnlock()
+	isSymlink := h.currentMode(node)&os.ModeSymlink != 0
 
 	if !isSymlink {
 		return nfsErrorWithPostOp(reply, NFSERR_INVAL), nil
